@@ -25,7 +25,9 @@ def strategy(env):
     return st.fixed_dictionaries(dict(fs=st.integers(0, len(FS) - 1), nodes=st.lists(node, min_size=8, max_size=40), clamp=st.booleans(),
                                       huge=st.one_of(st.none(), st.none(), st.none(), st.none(), st.tuples(st.integers(0, len(HUGE_OFFS) - 1), st.integers(-5000, 5000), st.integers(1, 30000), st.integers(0, 3)))))
 # data segments next to and beyond 2^31 / 2^32 / 2^33 bytes: offsets that do not fit 32 bits
-HUGE_OFFS = [1 << 32, (1 << 32) + 4096, (1 << 32) - 4096, 1 << 31, (1 << 33) + 8192, 3 << 31, (1 << 32) + (1 << 20)]
+HUGE_OFFS = [1 << 32, (1 << 32) + 4096, (1 << 32) - 4096, 1 << 31, (1 << 33) + 8192, 3 << 31, (1 << 32) + (1 << 20),
+             # first blocks of the double- and triple-indirect ranges of a block-mapped file (N = addresses per block): 12+N and 12+N+N^2, resolved per block size in body()
+             ('ind', 1, 0), ('ind', 2, 0), ('ind', 2, -1), ('ind', 2, 1), ('ind', 1, -1)]
 
 def envinit(widx):
     env = hyp.img_env(widx, variants=('asan',))
@@ -215,7 +217,11 @@ def body(case, env):
     huge = case.get('huge')
     if huge:
         # one very sparse file whose data lies at byte offsets >= 2 GiB (optionally with a head segment and a trailing hole)
-        oi, delta, ln, shape = huge; off = max(0, HUGE_OFFS[oi] + delta)
+        oi, delta, ln, shape = huge; ho = HUGE_OFFS[oi]
+        if isinstance(ho, tuple):
+            N = bs // 4; ho = (12 + N + (N * N if ho[1] == 2 else 0) + ho[2]) * bs; delta = delta % bs if shape & 1 else 0
+            if ho > (6 << 30): ho = (12 + N) * bs      # 4k blocks: the triple-indirect range starts beyond 4 GiB - fine - but keep the host file within reason
+        off = max(0, ho + delta)
         with open(os.path.join(root, 'huge-sparse'), 'wb') as f:
             if shape & 1: f.write(content(ln, 1 + ln % 9000))
             f.seek(off); f.write(content(off & 0xffff, ln))
